@@ -178,6 +178,22 @@ def faults():
             return m
         yield (f"index/{k}", b)
 
+    # every index that selects nothing from a 4-bit signal, on a port of every width it could be mistaken for
+    # (a slice [a:b:c] whose bounds oppose its stride has a "span" of |b-a| bits)
+    bounds = [None, -5, -4, -2, 0, 1, 3, 4, 6]
+    for a in bounds:
+        for b_ in bounds:
+            for c in (None, 1, -1, 2, -2, 3):
+                if len(range(*slice(a, b_, c).indices(4))) != 0:
+                    continue
+                for pw in (1, 2, 3, 4):
+                    def be(a=a, b_=b_, c=c, pw=pw):
+                        m = base()
+                        Lw = E(("a", 2), ("b", pw))
+                        m.i = Lw()(a=m.s2, b=m.s4[a:b_:c])
+                        return m
+                    yield (f"index/empty[{a}:{b_}:{c}]->port{pw}", be)
+
     def idx_concat():
         m = base()
         m.i = L()(a=m.s2, b=h.Concat(m.s1, m.s2)[3])
@@ -318,6 +334,44 @@ def faults():
         return m
     yield ("name/unnamed", unnamed)
 
+    # ---- a design that becomes ill-formed through an edit attempted after it was first elaborated / exported; the
+    #      edit may well be refused (the exception is caught, as an interactive session would): whatever is left must be
+    #      judged as it stands
+    for first in ("elaborate", "to_proto", "netlist"):
+        for op in ("disconnect", "replace-wide", "connect-wide", "setattr-wide", "call-wide"):
+            for depth in (0, 1):
+                def late(first=first, op=op, depth=depth):
+                    leaf = h.Module(name="LateLeaf")
+                    leaf.a, leaf.b = h.Input(width=2), h.Output()
+                    leaf.r = E(("a", 2), ("b", 1))()(a=leaf.a, b=leaf.b)
+                    mid = h.Module(name="LateMid")
+                    mid.x, mid.y = h.Input(width=2), h.Output()
+                    mid.u = leaf(a=mid.x, b=mid.y)
+                    m = base()
+                    m.m = mid(x=m.s2, y=m.s1)
+                    {"elaborate": lambda: h.elaborate(m), "to_proto": lambda: h.to_proto(m),
+                     "netlist": lambda: h.netlist(m, io.StringIO(), fmt="spice")}[first]()
+                    inst, holder, wide = (m.m, m, m.s4) if depth == 0 else (mid.u, mid, mid.x)
+                    port = "y" if depth == 0 else "b"
+                    before = dict(inst.conns)
+                    try:
+                        if op == "disconnect":
+                            inst.disconnect(port)
+                        elif op == "replace-wide":
+                            inst.replace(port, wide)
+                        elif op == "connect-wide":
+                            inst.connect(port, wide)
+                        elif op == "setattr-wide":
+                            setattr(inst, port, wide)
+                        else:
+                            inst(**{port: wide})
+                    except Exception:
+                        pass
+                    if dict(inst.conns) == before:
+                        raise NotAFault()      # the edit was refused and left nothing behind: the design is still valid
+                    return m
+                yield (f"late/{op}-after-{first}/depth{depth}", late)
+
     def clash():
         def mk(w):
             c = h.Module(name="SameName")
@@ -379,9 +433,13 @@ def sites(build, wrapfree=False):
     yield ("deep2", deep(2))
 
 
+class NotAFault(Exception):
+    """the builder found that its design is well-formed after all (a refused edit left no trace)"""
+
+
 def fault_cases():
     for desc, build in faults():
-        for site, b in sites(build):
+        for site, b in sites(build, wrapfree=desc.startswith(("index/empty[", "late/"))):
             for entry in ("to_proto", "elaborate", "netlist"):
                 yield (f"{desc}@{site}", entry, b)
 
@@ -391,6 +449,9 @@ def check_fault(case):
     desc, entry, build = case
     try:
         top = build()
+    except NotAFault:
+        check_fault.not_a_fault = getattr(check_fault, "not_a_fault", 0) + 1
+        return None
     except (ValueError, TypeError, RuntimeError):
         check_fault.at_construction = getattr(check_fault, "at_construction", 0) + 1
         return None       # rejected at construction time: fine
@@ -437,6 +498,12 @@ def run(ctx):
     ck.pass_list_obligations(ctx)
     from contracts import c_portrefs
     ctx.verify(c_portrefs.engine(), [c_portrefs.VERIFY[1]])
+    from contracts import c_slice, c_width
+    from props.c03 import replay_slice_inner
+    rej = c_slice.SliceRejects()
+    ctx.verify(mk_engine(contracts=[rej] + c_width.CONTRACTS), [rej], replay=replay_slice_inner,
+               min_obligations={rej.key: 20})
+    ctx.functions[-1]["function"] += " [rejection clauses: an index selecting nothing raises]"
     check_fault.at_construction = 0
     ctx.run_bounded("fault-enumeration", fault_cases(), check_fault,
                     rule="13 fault classes of the statement planted on scalar/bus/slice/concat/port-reference/bundle/"
